@@ -68,5 +68,29 @@ def findFull (q : Str) (names : List Str) (determineNs : Bool := true) : Except 
       | some cand => .ok cand
       | none => .error .ambiguous
 
+/-! ## the task name derived from a class name (`MetaTask.slugname` without `Meta.name`)
+
+`re.sub(r'(?<!^)(?=[A-Z])', '_', cls.__name__).lower()`, then a trailing `_task` is removed.  (`[A-Z]` is ASCII; class
+names in the model's domain are ASCII identifiers, so `lower()` is ASCII lower-casing.) -/
+
+def isUpperA (c : Char) : Bool := 'A'.toNat ≤ c.toNat && c.toNat ≤ 'Z'.toNat
+def lowerA (c : Char) : Char := if isUpperA c then Char.ofNat (c.toNat + 32) else c
+
+/-- an underscore before every upper-case letter that is not the first character, everything lower-cased -/
+def snakeTail : Str → Str
+  | [] => []
+  | c :: r => if isUpperA c then '_' :: lowerA c :: snakeTail r else c :: snakeTail r
+
+def snake : Str → Str
+  | [] => []
+  | c :: r => lowerA c :: snakeTail r
+
+/-- `name[:-5] if name.endswith('_task') else name` -/
+def stripTaskSuffix (s : Str) : Str :=
+  if "_task".toList.isSuffixOf s then s.take (s.length - 5) else s
+
+/-- the task name of a class without `Meta.name` -/
+def classTaskName (cls : Str) : Str := stripTaskSuffix (snake cls)
+
 end Names
 end TCV
